@@ -762,11 +762,81 @@ impl Exec {
                 match rand_jitter::JitterRng::new() {
                     Ok(mut r) => {
                         use rand_core::RngCore;
+                        // a new generator owes nobody the half of a value (hook: the pending-half flag)
+                        out.push(("half_after_new".into(), json!(r.verif_state().3)));
                         let _ = r.next_u64();
                         out.push(("ok".into(), json!(true)));
                     }
                     Err(e) => out.push(("err".into(), json!(format!("{:?}", e)))),
                 }
+            }
+            "par_ctor" => {
+                // C19: generators of one kind constructed AT THE SAME MOMENT on several threads (one per seed; "rounds" times),
+                // or - "sequential": true - one after the other on this thread.  Per round and seed a digest of the first
+                // outputs is recorded; the two ways must agree.
+                let kind = op["kind"].as_str().unwrap().to_string();
+                let seeds: Vec<Vec<u8>> = op["seeds"].as_array().unwrap().iter().map(json_bytes).collect();
+                let rounds = op.get("rounds").and_then(|v| v.as_u64()).unwrap_or(4);
+                let sequential = op.get("sequential").and_then(|v| v.as_bool()).unwrap_or(false);
+                fn one(kind: &str, seed: &[u8]) -> u64 {
+                    let mut h: u64 = 0xcbf29ce484222325;
+                    if let Built::Ok(mut g) = construct(kind, Ctor::FromSeed(seed)) {
+                        for _ in 0..6 {
+                            let v = g.next_u64().unwrap_or(0);
+                            h = (h ^ v).wrapping_mul(0x100000001b3);
+                        }
+                        let mut buf = [0u8; 9];
+                        let _ = g.fill_bytes(&mut buf);
+                        for &b in &buf {
+                            h = (h ^ b as u64).wrapping_mul(0x100000001b3);
+                        }
+                    }
+                    h
+                }
+                // every thread constructs `rounds` generators in a tight loop, choosing the seed by an LCG; what is recorded
+                // is, per seed, the sorted set of distinct digests seen by anybody (one each, if construction is a function
+                // of the seed)
+                let nthreads = if sequential { 1 } else { op.get("threads").and_then(|v| v.as_u64()).unwrap_or(8) as usize };
+                let barrier = Arc::new(std::sync::Barrier::new(nthreads));
+                let seeds = Arc::new(seeds);
+                let hs: Vec<_> = (0..nthreads)
+                    .map(|t| {
+                        let b = barrier.clone();
+                        let k = kind.clone();
+                        let seeds = seeds.clone();
+                        std::thread::spawn(move || {
+                            let mut seen: Vec<Vec<u64>> = vec![Vec::new(); seeds.len()];
+                            let mut x = 0xC0FFEEu32.wrapping_add(t as u32 * 7919);
+                            b.wait();
+                            for n in 0..rounds {
+                                x = x.wrapping_mul(1664525).wrapping_add(1013904223);
+                                // every seed at least once per thread, then at random
+                                let i = if (n as usize) < seeds.len() { n as usize } else { (x >> 16) as usize % seeds.len() };
+                                let d = one(&k, &seeds[i]);
+                                if !seen[i].contains(&d) && seen[i].len() < 4 {
+                                    seen[i].push(d);
+                                }
+                            }
+                            seen
+                        })
+                    })
+                    .collect();
+                let mut seen: Vec<Vec<u64>> = vec![Vec::new(); seeds.len()];
+                for h in hs {
+                    for (i, ds) in h.join().expect("par_ctor thread panicked").into_iter().enumerate() {
+                        for d in ds {
+                            if !seen[i].contains(&d) && seen[i].len() < 4 {
+                                seen[i].push(d);
+                            }
+                        }
+                    }
+                }
+                let mut all: Vec<Value> = Vec::new();
+                for ds in seen.iter_mut() {
+                    ds.sort();
+                    all.push(Value::Array(ds.iter().map(|&d| u64j(d)).collect()));
+                }
+                out.push(("ret".into(), Value::Array(all)));
             }
             "jit_std_new_parallel" => {
                 // many threads call JitterRng::new() at the same moment (meant as the first calls in the process: the
